@@ -60,6 +60,7 @@ func verifHandoff() { verifEmit("handoff", map[string]any{}) }
 
 func verifFlush(stage string, store memstore.MemStoreI, path string) {
 	verifEmit("flush."+stage, map[string]any{"n": store.Size(), "path": filepath.Base(path)})
+	verifGate("flush." + stage) // executeFlush holds no lock here
 }
 
 // called inside addReader with the manager lock held, after the list was replaced
@@ -85,10 +86,12 @@ func verifSelect(db *DB, action compactionAction) {
 	sel := verifBaseNames(action.pathsToCompact)
 	verifEmit("compact.select", map[string]any{"selected": sel, "threshold": db.compactionFileThreshold,
 		"compacting": len(sel) > db.compactionFileThreshold})
+	verifGate("compact.select") // executeCompaction holds no lock here
 }
 
 func verifMerged(m *proto.CompactionMetadata) {
 	verifEmit("compact.merged", map[string]any{"write": m.WritePath, "replacement": m.ReplacementPath, "inputs": append([]string{}, m.SstablePaths...)})
+	verifGate("compact.merged") // before reflectCompactionResult takes its locks
 }
 
 // called inside reflectCompactionResult with the database lock and the manager lock held
